@@ -10,7 +10,7 @@
 (* sequences of hinted calls (the hint is state).  The code's threshold 32 *)
 (* is the constant Threshold (set to 3 so both search paths are covered).  *)
 (***************************************************************************)
-EXTENDS Integers, Sequences, FiniteSets, SequencesExt
+EXTENDS Integers, Sequences, FiniteSets
 
 CONSTANTS L,            \* breakpoints are distinct even numbers in 0..2L; times are all integers in -2..2L+2
           MaxSeg,       \* at most this many segments
@@ -57,7 +57,9 @@ FindSegmentHint(b, t, h) ==
 Points == {2 * i : i \in 0..L}
 Times == -2..(2 * L + 2)
 IsIncreasing(b) == \A i \in 1..(Len(b) - 1) : b[i] < b[i + 1]
-AllBp == {SetToSortedSeq(S, <) : S \in {S2 \in SUBSET Points : Cardinality(S2) \in 2..(MaxSeg + 1)}}
+RECURSIVE SortSet(_)
+SortSet(S) == IF S = {} THEN <<>> ELSE LET m == CHOOSE x \in S : \A y \in S : x <= y IN <<m>> \o SortSet(S \ {m})
+AllBp == {SortSet(S) : S \in {S2 \in SUBSET Points : Cardinality(S2) \in 2..(MaxSeg + 1)}}
 Hints(b) == -2..(Len(b) + 1)
 
 Init == bp \in AllBp /\ hint \in Hints(bp) /\ ok = TRUE /\ lastT = 0
